@@ -716,14 +716,78 @@ theorem addCds_np {b c : Nat} {l : String} {s : St} (hinv : Inv s) : addCds b c 
   unfold addCds
   exact bind_np (setField_np_top (inv_reserveAll hinv)) (fun _ _ => ok_np _)
 
+/-! ## Multi-qubit block gates -/
+
+theorem ghosts_step {nq nc : Nat} (d : String) : ∀ (n b : Nat), (∀ p ∈ ghostWrites d b n, p.1 < nq + nc) →
+    InRStep nq nc (ghosts d b n)
+  | 0, _, _ => by
+    intro s1 h1
+    exact ⟨ok_np _, fun s2 h => by simp only [ghosts] at h; injection h with h; subst h; exact ⟨h1.1, rfl⟩⟩
+  | n + 1, b, hv => by
+    have hb : b < nq + nc := hv (b, .ghost d) (by simp [ghostWrites])
+    have ih := ghosts_step (nq := nq) (nc := nc) d n (b + 1) (fun p hp => hv p (by simp [ghostWrites, hp]))
+    have key : InRStep nq nc (fun s => setField b (.ghost d) s >>== ghosts d (b + 1) n) :=
+      (setField_step _ hb).bind ih
+    intro s1 h1
+    have := key s1 h1
+    simpa [ghosts] using this
+
+theorem drawRange_step {nq nc : Nat} {f l : Nat} {d : String} {q : Option Int}
+    (hv : ∀ p ∈ drawWrites f l d q, p.1 < nq + nc) : InRStep nq nc (drawRange f l d q) := by
+  unfold drawWrites at hv
+  by_cases he : l = f
+  · rw [if_pos he] at hv
+    have hf : f < nq + nc := hv (f, .gate d q) (by simp)
+    intro s1 h1
+    have := setField_step (nq := nq) (nc := nc) (.gate d q) hf s1 h1
+    simpa [drawRange, he] using this
+  · rw [if_neg he] at hv
+    have hf : f < nq + nc := hv (f, .multigate (l - f) d q) (by simp)
+    have key : InRStep nq nc (fun s => setField f (.multigate (l - f) d q) s >>== ghosts d (f + 1) (l - f)) :=
+      (setField_step _ hf).bind (ghosts_step d _ _ (fun p hp => hv p (by simp [hp])))
+    intro s1 h1
+    have := key s1 h1
+    simpa [drawRange, he] using this
+
+theorem blockRest_step {nq nc : Nat} (d : String) : ∀ (rs : List (Nat × Nat)) (prev : Nat),
+    (∀ p ∈ restWrites d rs prev, p.1 < nq + nc) → InRStep nq nc (blockRest d rs prev)
+  | [], _, _ => by
+    intro s1 h1
+    exact ⟨ok_np _, fun s2 h => by simp only [blockRest] at h; injection h with h; subst h; exact ⟨h1.1, rfl⟩⟩
+  | (f, l) :: more, prev, hv => by
+    have h1' : InRStep nq nc (drawRange f l d (some ((prev : Int) - (f : Int)))) :=
+      drawRange_step (fun p hp => hv p (by simp [restWrites, hp]))
+    have ih := blockRest_step (nq := nq) (nc := nc) d more l (fun p hp => hv p (by simp [restWrites, hp]))
+    have key := h1'.bind ih
+    intro s1 h1
+    have := key s1 h1
+    simpa [blockRest] using this
+
+theorem block_np {d : String} {n : Nat} {bits : List Nat} {s : St} (hinv : Inv s) (hok : blockOk d n bits = true) :
+    latex (.box d n) bits s ≠ .panic := by
+  obtain ⟨f, l, more, _, hne, hws, he⟩ := blockOk_latex hok s
+  obtain ⟨_, hrows, _, _, _⟩ := blockOk_facts hok
+  rw [he]
+  refine range_top_np hinv hne (fun hv => ?_)
+  have hlt : ∀ p ∈ blockWrites d bits, p.1 < s.nq + s.nc := by
+    intro p hp
+    obtain ⟨_, _, hi, hhi, _, h2⟩ := hrows p hp
+    have := hv.1 hi hhi
+    omega
+  rw [hws] at hlt
+  exact ((drawRange_step (fun p hp => hlt p (List.mem_append_left _ hp))).bind
+    (blockRest_step d more l (fun p hp => hlt p (List.mem_append_right _ hp)))).close (endRangeOp_close _ _)
+
 /-! ## Gates outside a range -/
 
 mutual
 theorem latex_np : ∀ (g : Gate) (bits : List Nat) (s : St), Inv s → s.expand = true → topOk g bits = true →
     gateSafe s.nq g bits = true → latex g bits s ≠ .panic
   | .box l n, bits, s, hinv, _, ht, _ => by
-    simp only [topOk, Bool.and_eq_true, decide_eq_true_eq] at ht
-    exact simple_np ht.1.1 ht.1.2 hinv
+    simp only [topOk, Bool.or_eq_true, Bool.and_eq_true, decide_eq_true_eq] at ht
+    rcases ht with ht | ht
+    · exact simple_np ht.1.1 ht.1.2 hinv
+    · exact block_np hinv ht
   | .x, bits, s, hinv, _, ht, _ => by
     simp only [topOk] at ht; exact simple_np rfl ht hinv
   | .z, bits, s, hinv, _, ht, _ => by
